@@ -90,6 +90,15 @@ def main(tier, replay=None):
     alphabet = 'A1$a0 :.-b9Z\n'
     for _ in range(4000 if quick else 100000):
         non.append(''.join(rng.choice(alphabet) for _ in range(rng.randint(0, 6))))
+    # a real label with one character replaced by, or one inserted from, characters that sit next to the letters and
+    # digits in ASCII or turn into them under case folding / digit parsing
+    odd = list('[\\]^_`{|}@~/:;?!#%&*+=<>,."\'') + ['\u00df', '\u017f', '\ufb01', '\u0130', '\u0131', '\u212a', '\uff21', '\uff11',
+                                                    '\u0663', '\u00b2', '\u0410', '\u03a9', '\u00e9', '\u2460', '\x00', '\x0b', '\u00a0']
+    for _ in range(3000 if quick else 60000):
+        base = rng.choice(labs)
+        i = rng.randrange(len(base) + 1)
+        ch = rng.choice(odd)
+        non.append(base[:i] + ch + base[i + (rng.random() < 0.5):])
     obs += [ext_obs(s) for s in non]
     for n, o in enumerate(obs, 1):
         o['id'] = n
